@@ -1211,7 +1211,7 @@ impl Worterbuch {
         .await
     }
 
-    fn grave_goods_for_client(&self, client_id: &ClientId) -> Option<GraveGoods> {
+    pub(crate) fn grave_goods_for_client(&self, client_id: &ClientId) -> Option<GraveGoods> {
         let key = topic!(
             SYSTEM_TOPIC_ROOT,
             SYSTEM_TOPIC_CLIENTS,
@@ -1222,7 +1222,7 @@ impl Worterbuch {
         value.and_then(|it| serde_json::from_value(it).ok())
     }
 
-    fn last_will_for_client(&self, client_id: &ClientId) -> Option<LastWill> {
+    pub(crate) fn last_will_for_client(&self, client_id: &ClientId) -> Option<LastWill> {
         let key = topic!(
             SYSTEM_TOPIC_ROOT,
             SYSTEM_TOPIC_CLIENTS,
